@@ -94,6 +94,8 @@ type interpreter struct {
 	sched              *scheduler   // concurrent mode, nil otherwise
 	cut                *cutState    // armed loop cut-point, nil otherwise
 	entropy            []*Term      // values handed out by the entropy source so far
+	tsTicking          bool         // formatted timestamps may advance (see tickingTimestamps)
+	tsSecond           int
 	depth              int
 	bypass             map[string]int
 	initMode           bool
